@@ -988,9 +988,9 @@ where
                 Ok(node_id)
             }
             _ => {
-                // For other storage types, return 0 for now
-                self.stats.num_keys += 1;
-                Ok(0)
+                // Other storage types have no separate node-id insert: store the key
+                // through the ordinary insert (which also keeps the key count right)
+                <Self as Trie>::insert(self, key)
             }
         }
     }
